@@ -23,10 +23,21 @@ type c01Wit struct {
 	Files   []string `json:"tsm_files"`
 }
 
+type histCfg struct {
+	BG      bool   // engine's own background compaction goroutines on
+	Deletes bool   // history contains range deletes (C03)
+	Class   string // violation class
+}
+
 func runC01History(r *vkit.Run, caseNo int, rg *vkit.Rand, bg bool) {
+	runHistory(r, caseNo, rg, histCfg{BG: bg, Class: "read_mismatch"})
+}
+
+func runHistory(r *vkit.Run, caseNo int, rg *vkit.Rand, cfg histCfg) {
+	bg := cfg.BG
 	series := domSeries()
 	vc := &valCounter{}
-	g := &histGen{rg: rg, series: series, vc: vc, SnapHeavy: caseNo%2 == 1}
+	g := &histGen{rg: rg, series: series, vc: vc, SnapHeavy: caseNo%2 == 1, Deletes: cfg.Deletes}
 	nops := rg.Range(12, 40)
 	if g.SnapHeavy {
 		nops = rg.Range(30, 80)
@@ -48,7 +59,7 @@ func runC01History(r *vkit.Run, caseNo int, rg *vkit.Rand, bg bool) {
 	kinds := map[string]bool{}
 	overwrites := 0
 	fail := func(i int, d string) {
-		r.Violation("read_mismatch", map[string]string{"after_op": hist[i].Kind, "background": fmt.Sprint(bg)},
+		r.Violation(cfg.Class, map[string]string{"after_op": hist[i].Kind, "background": fmt.Sprint(bg), "schedule": "sequential"},
 			c01Wit{Case: caseNo, History: opStrings(hist), FailsAt: i, Diff: d, Files: s.TSMFiles()})
 	}
 	for i := 0; i < nops; i++ {
@@ -81,6 +92,19 @@ func runC01History(r *vkit.Run, caseNo int, rg *vkit.Rand, bg bool) {
 				fail(i, "write returned error: "+err.Error())
 				return
 			}
+		case "delete":
+			var keys []string
+			for _, si := range o.DelSeries {
+				keys = append(keys, series[si].Key)
+			}
+			if err := s.DeleteRange(keys, o.Min, o.Max); err != nil {
+				fail(i, "delete returned error: "+err.Error())
+				return
+			}
+			before := countPoints(m)
+			applyModel(m, series, o)
+			r.Event("deletes", 1)
+			r.Event("points_deleted_in_model", int64(before-countPoints(m)))
 		case "snapshot":
 			if err := s.Snapshot(); err != nil {
 				fail(i, "snapshot error: "+err.Error())
@@ -125,6 +149,9 @@ func runC01History(r *vkit.Run, caseNo int, rg *vkit.Rand, bg bool) {
 	r.Event("ops", int64(len(hist)))
 	r.Event("overwrites_of_existing_cell", int64(overwrites))
 	nontrivial := kinds["write"] && (kinds["snapshot"] || kinds["reopen"]) && overwrites > 0
+	if cfg.Deletes {
+		nontrivial = nontrivial && kinds["delete"]
+	}
 	r.Case(mustJSON(hist), nontrivial)
 	if caseNo%37 == 0 && r.WantSample() {
 		r.Sample(map[string]any{"case": caseNo, "background_compactions": bg, "history": opStrings(hist), "final_tsm_files": s.TSMFiles()})
